@@ -51,6 +51,8 @@ def one(d):
         tail = "; ".join(sigs[:3])
         if r.returncode not in (0, 1):
             tail += " | " + (r.stderr.strip().splitlines() or [""])[-1][-300:]
+        if meta.get("expected") == "silent":  # allowed by the documented contract: recorded, not required to be caught
+            return name, {0: "silent-as-expected", 1: "caught", 2: "CHECK-BROKE"}.get(r.returncode, str(r.returncode)), tail
         return name, {0: "MISSED", 1: "caught", 2: "CHECK-BROKE"}.get(r.returncode, str(r.returncode)), tail
     finally:
         subprocess.run(f"git -C /repo worktree remove --force {wt}", shell=True, capture_output=True)
@@ -71,9 +73,13 @@ def main():
         for name, verdict, sig in ex.map(one, dirs):
             print(f"{name:14s} {verdict:12s} {sig}", flush=True)
             res.append((name, verdict))
-    bad = [n for n, v in res if v != "caught"]
+    bad = [n for n, v in res if v not in ("caught", "silent-as-expected")]
     print(f"{len(res)-len(bad)}/{len(res)} caught; not caught: {bad}")
-    json.dump({n: v for n, v in res}, open("/verif/seeded/REGRESSION.json", "w"), indent=1)
+    old = {}
+    if args and os.path.exists("/verif/seeded/REGRESSION.json"):  # a partial run updates, a full run replaces
+        old = json.load(open("/verif/seeded/REGRESSION.json"))
+    old.update({n: v for n, v in res})
+    json.dump(old, open("/verif/seeded/REGRESSION.json", "w"), indent=1, sort_keys=True)
     sys.exit(1 if bad else 0)
 
 main()
